@@ -6,6 +6,7 @@ package l4proxy
 // falls within 25 ms of a forgetter or of a planned outage), and judged by predicates computed from the harness' own event log.
 
 import (
+	"os"
 	"context"
 	"fmt"
 	"net"
@@ -152,7 +153,79 @@ func TestVerifHealth(t *testing.T) {
 			stats[k] += v
 		}
 	}
+	// configuration reloads: the peers of an upstream are kept across reloads (same dial address), and so is what is remembered
+	// about them; a failure counted under the old configuration must still be forgotten fail_duration after it happened
+	nrel := 2
+	if os.Getenv("VERIF_TIER") == "thorough" {
+		nrel = 12
+	}
+	for k := 0; k < nrel; k++ {
+		line, obs, sig, desc := reloadScenario(t, r)
+		fmt.Fprintln(out.cases, line)
+		fmt.Fprintln(out.out, obs)
+		if sig != "" {
+			out.fail(n+k, sig, desc)
+		}
+		stats["reload scenarios"]++
+	}
 	out.stats(stats)
+}
+
+// reloadScenario: a dial failure is counted, then the configuration is reloaded (the new handler is provisioned before the old
+// one is cancelled and cleaned up, as Caddy does) at some point inside the failure window
+func reloadScenario(t *testing.T, r *vrng) (line, obs, sig, desc string) {
+	p := newHPeer(t)
+	defer p.set(false)
+	failDur := r.pick(160, 200, 260)
+	reloadAt := r.pick(5, 40, 90)
+	line = fmt.Sprintf("hreload fail_duration=%dms reload_at=%dms", failDur, reloadAt)
+	mk := func() (*Handler, func()) {
+		h := &Handler{LoadBalancing: &LoadBalancing{SelectionPolicy: &FirstSelection{}}}
+		h.HealthChecks = &HealthChecks{Passive: &PassiveHealthChecks{FailDuration: caddy.Duration(time.Duration(failDur) * time.Millisecond), MaxFails: 1}}
+		h.Upstreams = []*Upstream{{Dial: []string{p.addr}}}
+		ctx, cancel := caddy.NewContext(caddy.Context{Context: context.Background()})
+		if err := h.Provision(ctx); err != nil {
+			panic(err)
+		}
+		return h, func() { cancel(); _ = h.Cleanup() }
+	}
+	handle := func(h *Handler) error {
+		cl, sv := net.Pipe()
+		defer cl.Close()
+		cx := layer4.WrapConnection(sv, nil, zap.NewNop())
+		ret := make(chan error, 1)
+		go func() { ret <- h.Handle(cx, layer4.HandlerFunc(func(*layer4.Connection) error { return nil })) }()
+		go func() { cl.Write([]byte{1}); time.Sleep(20 * time.Millisecond); cl.Close() }()
+		select {
+		case err := <-ret:
+			return err
+		case <-time.After(2 * time.Second):
+			return fmt.Errorf("handler did not return")
+		}
+	}
+	h1, stop1 := mk()
+	p.set(false)
+	t0 := time.Now()
+	err1 := handle(h1) // refused: one failure is remembered
+	if err1 == nil {
+		stop1()
+		return line, "*", "", "" // the dial unexpectedly succeeded: nothing to judge
+	}
+	time.Sleep(time.Until(t0.Add(time.Duration(reloadAt) * time.Millisecond)))
+	h2, stop2 := mk()
+	stop1()
+	defer stop2()
+	p.set(true)
+	time.Sleep(time.Until(t0.Add(time.Duration(failDur+150) * time.Millisecond)))
+	f := atomic.LoadInt32(&h2.Upstreams[0].peers[0].fails)
+	avail := h2.Upstreams[0].available()
+	err2 := handle(h2)
+	obs = "*"
+	if f != 0 || !avail || err2 != nil {
+		sig = "failure-not-forgotten-after-reload"
+		desc = fmt.Sprintf("a dial failure at t=0 is still remembered %d ms later (fail_duration %d ms) after a configuration reload at %d ms: fails=%d available=%v, a new connection gets %v", failDur+150, failDur, reloadAt, f, avail, err2)
+	}
+	return line, obs, sig, desc
 }
 
 func healthHistory(seed uint64, peers []*hpeer) (res struct {
